@@ -55,10 +55,19 @@ func harnessC20nextid() {
 	go func() { g[2] = gb.NextId(); m[2] = mb.NextId(); g[3] = gb.NextId(); m[3] = mb.NextId(); done <- struct{}{} }()
 	<-done
 	<-done
+	// the same fact is registered under the properties it underpins (two Dispense calls, or two brokered connections,
+	// outstanding at once must not be given one ID): the label names the property of the check that runs it
+	lg, lm := "C20: GRPCBroker.NextId never returns the same ID twice", "C20: MuxBroker.NextId never returns the same ID twice"
+	switch vParam("as") {
+	case 6:
+		lm = "C06: concurrently outstanding net/rpc dispenses get distinct IDs (MuxBroker.NextId)"
+	case 7:
+		lg = "C07: concurrently outstanding brokered connections get distinct IDs (GRPCBroker.NextId)"
+	}
 	for i := 0; i < 4; i++ {
 		for j := i + 1; j < 4; j++ {
-			vAssert(g[i] != g[j], "C20: GRPCBroker.NextId never returns the same ID twice")
-			vAssert(m[i] != m[j], "C20: MuxBroker.NextId never returns the same ID twice")
+			vAssert(g[i] != g[j], lg)
+			vAssert(m[i] != m[j], lm)
 		}
 	}
 	vCover("ids-distinct")
